@@ -102,6 +102,7 @@ type contractDB struct {
 	AtomicInit map[string]bool // functions that run before any goroutine is started (may access atomic fields plainly)
 	Owned      map[string]bool // types whose values belong to one goroutine at a time
 	Moves      map[string]bool // functions that hand their receiver to a new goroutine
+	Includes   map[string][]string // property -> properties whose obligations its check also discharges (it rests on them)
 	Grammars   map[string]*grammarDecl // property -> the grammar assumptions its contracts rest on
 	Shared     map[string]bool   // types whose values are reachable from every goroutine of a run
 	SoleWriter map[string]string // TYPE.field -> the one function (a goroutine of its own) that writes it after start-up
@@ -112,10 +113,10 @@ type contractDB struct {
 	Files     []string
 }
 
-var clauseKw = regexp.MustCompile(`^(grammar|precedence|owned|shared|solewriter|discipline|atomicinit|moves|globalframe|defines|heapwf|reveal|scope|invariant|ghost|spec|macro|lemma|contract|external|requires|ensures|emits|callsite|decreases|loop|safety|props|inline|pure|modifies|noreturn|fuel|unreachable)\b`)
+var clauseKw = regexp.MustCompile(`^(includes|grammar|precedence|owned|shared|solewriter|discipline|atomicinit|moves|globalframe|defines|heapwf|reveal|scope|invariant|ghost|spec|macro|lemma|contract|external|requires|ensures|emits|callsite|decreases|loop|safety|props|inline|pure|modifies|noreturn|fuel|unreachable)\b`)
 
 func newContractDB() *contractDB {
-	return &contractDB{Specs: map[string]*specDef{}, Contracts: map[string]*contract{}, Ghosts: map[string]string{}, Scopes: map[string][]string{}, Invariants: map[string][]*clause{}, RevealPost: map[string]bool{}, GlobalFrame: map[string]bool{}, AtomicInit: map[string]bool{}, Moves: map[string]bool{}, Owned: map[string]bool{}, Discipline: map[string]bool{}, Shared: map[string]bool{}, SoleWriter: map[string]string{}, Grammars: map[string]*grammarDecl{}}
+	return &contractDB{Specs: map[string]*specDef{}, Contracts: map[string]*contract{}, Ghosts: map[string]string{}, Scopes: map[string][]string{}, Invariants: map[string][]*clause{}, RevealPost: map[string]bool{}, GlobalFrame: map[string]bool{}, AtomicInit: map[string]bool{}, Moves: map[string]bool{}, Owned: map[string]bool{}, Discipline: map[string]bool{}, Shared: map[string]bool{}, SoleWriter: map[string]string{}, Grammars: map[string]*grammarDecl{}, Includes: map[string][]string{}}
 }
 
 // loadContractFile parses one file. pkgPath is the Go package the file belongs to ("" for external files,
@@ -244,6 +245,14 @@ func (db *contractDB) loadContractFile(path, pkgPath string) error {
 					db.AtomicInit[r] = true
 				}
 			}
+			cur = nil
+		case "includes":
+			// includes PROP OTHER...: PROP's claim rests on the contracts of OTHER; its check discharges them too
+			f := strings.Fields(rest)
+			if len(f) < 2 {
+				return fail("includes PROP OTHER...")
+			}
+			db.Includes[f[0]] = append(db.Includes[f[0]], f[1:]...)
 			cur = nil
 		case "grammar":
 			// grammar PROP SOURCE GENERATED COMMAND... : the generated parser is what COMMAND makes of SOURCE (paths relative to the repository)
